@@ -691,13 +691,14 @@ func polExecute(t *testing.T, c polCase) polRun {
 	return out
 }
 
+// polClass names the kind of error Dial returned by what the error *is* (the injected sentinels and their types), not
+// by how the code words it.  The error after the 50th failed attempt carries the last cause only as text (`%v`), or,
+// should the code come to wrap it, as a cause: polSame treats the two as the same outcome.
 func polClass(err error) string {
 	switch {
 	case err == nil:
 		return "nil"
-	case strings.Contains(err.Error(), "timed out trying to initialize"):
-		return "error:timed-out"
-	case strings.Contains(err.Error(), "failed to clean up connection"):
+	case strings.Contains(err.Error(), "sysctl I/O error"):
 		return "error:cleanup"
 	case errors.Is(err, ErrLinkNotReady):
 		return "error:link-not-ready"
@@ -712,7 +713,21 @@ func polClass(err error) string {
 	case errors.Is(err, pErrOther):
 		return "error:other"
 	}
+	for _, cause := range []error{ErrLinkNotReady, ErrLinkChange, pErrSyscall} {
+		if strings.Contains(err.Error(), cause.Error()) {
+			return "error:timed-out" // a recoverable cause, flattened into the text of the error that ends the retries
+		}
+	}
 	return "error:unknown(" + err.Error() + ")"
+}
+
+// polSame: do the modelled and the observed result name the same outcome?
+func polSame(want, got string) bool {
+	if want == got {
+		return true
+	}
+	// after the last of the 50 attempts the error may carry the last cause as text or as a wrapped cause
+	return want == "error:timed-out" && (got == "error:link-not-ready" || got == "error:link-change" || got == "error:syscall")
 }
 
 // --- C10 property ---------------------------------------------------------------
@@ -756,6 +771,9 @@ func c10Prop(t *testing.T, k *verifkit.Kit) func(c polCase) error {
 			return nil
 		}
 		got.Trace.Result = polClass(got.Err)
+		if polSame(want.Result, got.Trace.Result) {
+			got.Trace.Result = want.Result
+		}
 		if g, w := got.Trace.String(), want.String(); g != w {
 			sig := "C10/policy-trace-differs"
 			switch {
@@ -979,6 +997,9 @@ func TestVerif_C10real(t *testing.T) {
 				want := polModel(c)
 				got := polExecute(t, c)
 				got.Trace.Result = polClass(got.Err)
+				if polSame(want.Result, got.Trace.Result) {
+					got.Trace.Result = want.Result
+				}
 				desc := fmt.Sprintf("script %v task=%v (wall clock, old timer semantics):\nwant %s\ngot  %s", c.Script, time.Duration(c.TaskNS), want.String(), got.Trace.String())
 				switch {
 				case got.Panic != nil:
@@ -1149,10 +1170,11 @@ func c11Oracle(c polCase, run polRun) error {
 	if !restoreFailed && h.autoconf != c.Autoconf0 {
 		return fail("C11/autoconf-changed", "autoconf is %v after Dial returned, it was %v before", h.autoconf, c.Autoconf0)
 	}
-	if restoreFailedOther && (run.Err == nil || !strings.Contains(run.Err.Error(), "clean up")) {
+	// (the injected failure is recognised by its own text, "sysctl I/O error", wherever the code puts it)
+	if restoreFailedOther && (run.Err == nil || !strings.Contains(run.Err.Error(), "sysctl I/O error")) {
 		return fail("C11/restore-error-not-reported", "a restore failed with a non-tolerated error but Dial returned %v", run.Err)
 	}
-	if !restoreFailedOther && run.Err != nil && strings.Contains(run.Err.Error(), "clean up") {
+	if !restoreFailedOther && run.Err != nil && (strings.Contains(run.Err.Error(), "clean up") || strings.Contains(run.Err.Error(), "cleanup")) {
 		return fail("C11/tolerated-restore-error-reported", "Dial reported a clean-up error although only tolerated restore failures occurred: %v", run.Err)
 	}
 	return nil
